@@ -381,7 +381,16 @@ fn list_inhabited(
                 if items.is_never() {
                     return list_inhabited(prefix_items, items, &neg.next, builder);
                 }
+                // lists of the positive shape that are shorter than the negative's prefix are not in the
+                // negative: each exact length len..neg_len only has to avoid the remaining negatives
+                let never: Rc<SemType> = Rc::new(SemTypeContext::never());
                 for _i in len..neg_len {
+                    let mut shorter = prefix_items.clone();
+                    if let ListInhabited::Yes =
+                        list_inhabited(&mut shorter, &never, &neg.next, builder)?
+                    {
+                        return Ok(ListInhabited::Yes);
+                    }
                     prefix_items.push(items.clone());
                 }
                 len = neg_len;
@@ -427,9 +436,35 @@ fn list_inhabited(
                 }
             }
 
-            let diff = items.diff(&nt.items)?;
-            if let IsEmptyStatus::NotEmpty = diff.is_empty_status(builder)? {
-                return Ok(ListInhabited::Yes);
+            // Case (3): some element after the prefix is not in the negative's rest type. Such a list must
+            // still avoid the remaining negatives; positions beyond every remaining prefix are
+            // interchangeable, so it is enough to try the positions up to the longest of them.
+            if !items.is_never() {
+                let diff = items.diff(&nt.items)?;
+                if let IsEmptyStatus::NotEmpty = diff.is_empty_status(builder)? {
+                    let mut longest = len;
+                    let mut rest = &neg.next;
+                    while let Some(n) = rest {
+                        let l = match n.atom {
+                            Atom::List(a) => builder.get_list_atomic(a).prefix_items.len(),
+                            Atom::Set(a) => builder.get_set_atomic(a).prefix_items.len(),
+                            _ => unreachable!(),
+                        };
+                        longest = std::cmp::max(longest, l);
+                        rest = &n.next;
+                    }
+                    let mut s = prefix_items.clone();
+                    for _j in len..=longest {
+                        s.push(diff.clone());
+                        if let ListInhabited::Yes =
+                            list_inhabited(&mut s.clone(), items, &neg.next, builder)?
+                        {
+                            return Ok(ListInhabited::Yes);
+                        }
+                        s.pop();
+                        s.push(items.clone());
+                    }
+                }
             }
 
             // This is correct for length 0, because we know that the length of the
